@@ -24,7 +24,7 @@ func (p *zzProvider) Empty() bool                                             { 
 
 var zzNameCatalogue = []string{"", "a.b", "*.b", "*.a.b", "b"}
 var zzAlpnCatalogue = [][]string{nil, {"h2"}, {"http/1.1"}}
-var zzSNICatalogue = []string{"", "a.b", "A.b.", "x.a.b", "b", "c", "h2"}
+var zzSNICatalogue = []string{"", "a.b", "A.b.", "x.a.b", "b", "c", "h2", "x.A.B", "c.B"}
 var zzHelloAlpn = [][]string{nil, {"h2"}, {"H2", "http/1.1"}}
 
 // zzNameMatches: exact, or with the first k labels replaced by one "*".
